@@ -5,7 +5,9 @@
 package main
 
 import (
+	"encoding/json"
 	"fmt"
+	"os"
 	"path/filepath"
 	"time"
 
@@ -128,13 +130,13 @@ func valid(tls *cfgx.TLSMaterial) []named {
 // regression inputs: one per defect found on the pinned tree (all repaired by fix: commits)
 func regressions() []named {
 	return []named{
+		{"selector-percent", []byte{0xA8, 5}},
 		{"truncated-host", []byte{0xA0, 0, 6, 0x61, 0x62, 0x63, 0x64, 0x65}},
+		{"wc2-header-walk", []byte{0xB1, 0, 0, 0, 0, 0, 0, 1, 5}},
 		{"truncated-host-mid", []byte{0xA0, 0, 4, 0x61, 0x62, 0x63, 0xFA, 0xC0}},
 		{"truncated-xor", []byte{0xD4, 0, 6, 1, 2, 3, 4, 5}},
 		{"truncated-xor-2", []byte{0xC0, 0xD4, 0, 3, 1, 2}},
-		{"wc2-header-walk", []byte{0xB1, 0, 0, 0, 0, 0, 0, 1, 5}},
 		{"wc2-header-walk-2", []byte{0xA2, 1, 0xB1, 0, 1, 0, 0, 0, 0, 2, 0x2F, 1, 1, 0x61, 0x62, 3}},
-		{"selector-percent", []byte{0xA8, 5}},
 		{"selector-percent-rr", []byte{0xC0, 0xA9, 50, 0xA0, 0, 1, 0x68}},
 		{"dns-after-offset", []byte{0xA2, 5, 0xE1, 1, 5, 0x61, 0x2E, 0x63, 0x6F, 0x6D}},
 		{"tlsca-empty", []byte{0xB4, 0, 0, 0}},
@@ -226,6 +228,28 @@ func main() {
 		return fmt.Sprintf(f, a...)
 	}
 
+	if fl.Replay != "" {
+		// re-run one recorded input (replays/*.json or seeded/*/replay.json: input.bytes)
+		var rp struct {
+			Input struct {
+				Bytes []int `json:"bytes"`
+			} `json:"input"`
+		}
+		raw, err := os.ReadFile(fl.Replay)
+		if err != nil {
+			panic(err)
+		}
+		if err := json.Unmarshal(raw, &rp); err != nil {
+			panic(err)
+		}
+		c := make([]byte, len(rp.Input.Bytes))
+		for i, x := range rp.Input.Bytes {
+			c[i] = byte(x)
+		}
+		do(c, "replay", filepath.Base(fl.Replay))
+		out.Finish()
+		return
+	}
 	// 1. regression corpus
 	for _, r := range regressions() {
 		do(r.c, "regression", r.name)
